@@ -131,10 +131,11 @@ def r113_predicates(ctx, res, fname, want_same, fi, direct):
             raise AnalysisError("%s: operand types %s, %s at `%s`" % (fi.where(r), ta, tb, txt(r)[:40]))
         same = KIND[ta][1] == KIND[tb][1]
         want = want_same if same else ("orth" if want_same == "par" else "par")
-        got = _classify_predicate(_resolve_local(fi, r.value), fi, ta, tb)
+        ud = _unpack_defs(ctx, fi, ta0, tb0)
+        got = _classify_predicate(_resolve_local(fi, r.value, ud), fi, ta, tb)
         lab = "%s(%s, %s)" % (fname, ta, tb)
         if got is None:
-            ex = _resolve_local(fi, r.value)
+            ex = _resolve_local(fi, r.value, ud)
             via_angle = [c for c in ast.walk(ex) if isinstance(c, ast.Call) and (
                 (isinstance(c.func, ast.Name) and c.func.id in ("angle", "acute")) or
                 (isinstance(c.func, ast.Attribute) and c.func.attr == "angle"))]
@@ -342,7 +343,8 @@ def r112_r113_angle(ctx, res, fi, direct):
         if ta not in KIND or tb not in KIND:
             raise AnalysisError("%s: operand types %s, %s at `%s`" % (fi.where(r), ta, tb, txt(r)[:40]))
         lab = "angle(%s, %s)" % (ta, tb)
-        iv = _interval(ctx, fi, _resolve_local(fi, r.value), acute_ok)
+        ud = _unpack_defs(ctx, fi, ta0, tb0)
+        iv = _interval(ctx, fi, _resolve_local(fi, r.value, ud), acute_ok)
         if iv is None:
             raise AnalysisError("%s: cannot bound `%s`" % (fi.where(r), txt(r.value)))
         lo, hi, shape = iv
@@ -365,13 +367,13 @@ def r112_r113_angle(ctx, res, fi, direct):
                               construct=lab + " complement")
         # the vectors must be the operands' direction vectors
         a, b = fi.params[:2]
-        calls = [c for c in ast.walk(_resolve_local(fi, r.value)) if isinstance(c, ast.Call) and isinstance(c.func, ast.Attribute)
+        calls = [c for c in ast.walk(_resolve_local(fi, r.value, ud)) if isinstance(c, ast.Call) and isinstance(c.func, ast.Attribute)
                  and c.func.attr == "angle"]
         okv = any((_vec_of(c.func.value, a, ta) and _vec_of(c.args[0], b, tb)) or
                   (_vec_of(c.func.value, b, tb) and _vec_of(c.args[0], a, ta)) for c in calls if len(c.args) == 1)
         if not calls:
             # a direct formula: it must mention the direction vectors of both operands
-            full = _resolve_local(fi, r.value)
+            full = _resolve_local(fi, r.value, ud)
             mentioned = {txt(x) for x in ast.walk(full) if isinstance(x, (ast.Attribute, ast.Name))}
             va = a if KIND[ta][0] is None else "%s.%s" % (a, KIND[ta][0])
             vb = b if KIND[tb][0] is None else "%s.%s" % (b, KIND[tb][0])
@@ -382,10 +384,78 @@ def r112_r113_angle(ctx, res, fi, direct):
                           construct=lab + " operands")
 
 
-def _resolve_local(fi, e):
-    """locals read as their definitions, private single-return helpers of the module read as their bodies"""
+def _resolve_local(fi, e, ud=None):
+    """locals read as their definitions, private single-return helpers of the module read as their bodies; `ud` maps the
+    names bound by `u, v, flag = helper(a, b)` to the helper's return elements in the operand-type context at hand"""
     from ..astutil import expand_locals, inline_module_calls
+    import copy as _copy
+    if ud:
+        class R(ast.NodeTransformer):
+            def visit_Name(self, n):
+                if isinstance(n.ctx, ast.Load) and n.id in ud:
+                    return _copy.deepcopy(ud[n.id])
+                return n
+        e = _copy.deepcopy(e)
+        for _ in range(4):
+            e = R().visit(expand_locals(fi.node, R().visit(e), fi.params))
     return inline_module_calls(fi, expand_locals(fi.node, e, fi.params))
+
+
+def _unpack_defs(ctx, fi, ta: str, tb: str):
+    """{name: expression} for names bound by tuple-unpacking the result of a module-level helper that, for the operand
+    types (ta, tb), reaches exactly one `return e1, ..., ek` (a classifier such as `u, v, mixed = _direction_pair(a, b)`)"""
+    import copy as _copy
+    eng = ctx.types
+    out = {}
+    # locals with one definition per branch of a type dispatch (`u = a.dv` under isinstance(a, Line), `u = a.n` under
+    # isinstance(a, Plane), ...): in the context (ta, tb) the definition that E1 reached
+    sm0 = eng.summary(fi, (S(ta), S(tb)))
+    if sm0 is not None:
+        from ..astutil import assigned_names
+        for nm, defs in assigned_names(fi.node).items():
+            if nm in fi.params or len(defs) < 2 or not all(isinstance(d, ast.Assign) and len(d.targets) == 1 for d in defs):
+                continue
+            live = [d for d in defs if id(d) in sm0.reached]
+            if len(live) == 1:
+                out[nm] = live[0].value
+    stores = {}
+    for n in walk_local(fi.node):
+        if isinstance(n, ast.Name) and isinstance(n.ctx, ast.Store):
+            stores[n.id] = stores.get(n.id, 0) + 1
+    for st in walk_local(fi.node):
+        if not (isinstance(st, ast.Assign) and len(st.targets) == 1 and isinstance(st.targets[0], ast.Tuple)
+                and isinstance(st.value, ast.Call) and isinstance(st.value.func, ast.Name) and not st.value.keywords):
+            continue
+        b = fi.resolve(st.value.func.id)
+        if b is None or b.kind != "func" or b.target.cls is not None or len(b.target.params) != len(st.value.args):
+            continue
+        h = b.target
+        argt = []
+        for a_ in st.value.args:
+            if isinstance(a_, ast.Name) and a_.id == fi.params[0] and stores.get(a_.id, 0) == 0:
+                argt.append(S(ta))
+            elif isinstance(a_, ast.Name) and len(fi.params) > 1 and a_.id == fi.params[1] and stores.get(a_.id, 0) == 0:
+                argt.append(S(tb))
+            else:
+                argt.append(eng.types_at(fi, a_))
+        sm = eng.summary(h, tuple(argt))
+        if sm is None:
+            continue
+        rets = [r for r in walk_local(h.node) if isinstance(r, ast.Return) and id(r) in sm.reached]
+        if len(rets) != 1 or not isinstance(rets[0].value, ast.Tuple) or len(rets[0].value.elts) != len(st.targets[0].elts):
+            continue
+        sub = dict(zip(h.params, st.value.args))
+
+        class Sub(ast.NodeTransformer):
+            def visit_Name(self, n):
+                if n.id in sub and isinstance(n.ctx, ast.Load):
+                    return _copy.deepcopy(sub[n.id])
+                return n
+        from ..astutil import expand_locals
+        for t_, x_ in zip(st.targets[0].elts, rets[0].value.elts):
+            if isinstance(t_, ast.Name) and stores.get(t_.id, 0) == 1:
+                out[t_.id] = Sub().visit(expand_locals(h.node, x_, h.params))
+    return out
 
 
 def r115(ctx, res):
